@@ -220,11 +220,13 @@ PROPS["C11"] = dict(
             dict(pkg="./storage", entry="VerifC11Local", bounds="maxcallers=2,preempt=1", reach=["callers-returned", "end2"]),
             dict(pkg="./storage", entry="VerifC11Remote", bounds="", reach=["remote-end"]),
             dict(pkg="./storage", entry="VerifC11Batch", bounds="preempt=1", reach=["batch-end"]),
+            dict(pkg="./storage", entry="VerifC11TwoNodes", bounds="preempt=1", reach=["two-nodes-returned"]),
         ],
         "thorough": [
             dict(pkg="./storage", entry="VerifC11Local", bounds="maxcallers=2,preempt=2", reach=["callers-returned", "end2"]),
             dict(pkg="./storage", entry="VerifC11Remote", bounds="", reach=["remote-end"]),
             dict(pkg="./storage", entry="VerifC11Batch", bounds="preempt=2", reach=["batch-end"]),
+            dict(pkg="./storage", entry="VerifC11TwoNodes", bounds="preempt=2", reach=["two-nodes-returned"]),
         ],
     },
     outside="more than 2 concurrent callers; real raft (Propose is a harness stub that feeds an apply goroutine); the proposal timeout fires only when every goroutine is blocked (computation is fast relative to the 5 s timeout)",
@@ -239,8 +241,10 @@ PROPS["C18"] = dict(
     technique="bounded symbolic execution of go/ssa (gosmt) with modelled goroutines, channels, select, RWMutex (writer preference) and timers: schedules and select choices are path decisions; deadlock = watchdog timer that can only fire when every goroutine is blocked (no solver variables: verdict by exhaustive path enumeration)",
     explanation="real Allocator.run/watch/unwatch/addNodeToPartitions/removeNodeFromPartitions and cluster.Conn.AddNode/RemoveNode/NodeChangesNotifications driven by a catalogue goroutine and a membership goroutine; afterwards one more catalogue change must go through",
     runs={
-        "quick": [dict(pkg="./storage", entry="VerifC18", bounds="preempt=1", reach=["drivers-returned", "end"])],
-        "thorough": [dict(pkg="./storage", entry="VerifC18", bounds="preempt=3", reach=["drivers-returned", "end"])],
+        "quick": [dict(pkg="./storage", entry="VerifC18", bounds="preempt=1", reach=["drivers-returned", "end"]),
+                  dict(pkg="./storage", entry="VerifC18", bounds="preempt=1,replicaless=1", reach=["drivers-returned", "end"])],
+        "thorough": [dict(pkg="./storage", entry="VerifC18", bounds="preempt=3", reach=["drivers-returned", "end"]),
+                     dict(pkg="./storage", entry="VerifC18", bounds="preempt=2,replicaless=1", reach=["drivers-returned", "end"])],
     },
     outside="partitions assigned to the local node (loadRaft/unloadRaft/proposeAddNode/proposeRemoveNode are not exercised: the watched partitions live elsewhere), i.e. the interaction of the allocator with the catalogue's own raft proposals; more than 2 membership and 3 catalogue events; more than 10 queued notifications",
     assumptions=COMMON_ASSUME + ["sync.RWMutex is modelled with Go's writer preference (a pending Lock blocks new RLocks)"],
@@ -291,4 +295,26 @@ PROPS["C12"] = dict(
                                  "SIMD wrappers are modelled by their Go part (&a[0], &b[0]) followed by the portable kernel"],
     replay_attempts=1,
     replays_per_signature=1,
+)
+
+PROPS["C14"] = dict(
+    level="model_checking",
+    technique="bounded symbolic execution of go/ssa (gosmt): catalogue logs, snapshot cuts, applied prefixes and restart scenarios are path decisions (no solver variables: verdict by exhaustive path enumeration of the symbolic executor)",
+    explanation="(a) real DatasetManager.process/snapshot/processSnapshot: every log of create/delete/replica-set changes over 2 dataset ids, every cut, every applied prefix: full replay, and snapshot restore + replay of the rest, must give the same catalogue, and deleted datasets' partitions must not stay watched; (b) the real Server.setup wiring executed twice on one data directory (Badger model persists per Dir) with a harness raft node that re-delivers the stored log on (re)start: acknowledged creates/deletes must be listed/absent after the restart, with and without a compacted catalogue",
+    runs={
+        "quick": [
+            dict(pkg="./storage", entry="VerifC14", bounds="ops=3", reach=["end"]),
+            dict(pkg=".", entry="VerifC14Restart", bounds="preempt=0", no_native=True, reach=["restarted", "end"]),
+            dict(pkg=".", entry="VerifC14Restart", bounds="preempt=1,det=0,maxcreates=1,nodelete=1,nosnap=1", no_native=True, reach=["restarted", "end"]),
+        ],
+        "thorough": [
+            dict(pkg="./storage", entry="VerifC14", bounds="ops=4,datasets=2", reach=["end"]),
+            dict(pkg="./storage", entry="VerifC14", bounds="ops=3,datasets=3,det=0", reach=["end"]),
+            dict(pkg=".", entry="VerifC14Restart", bounds="preempt=0", no_native=True, reach=["restarted", "end"]),
+            dict(pkg=".", entry="VerifC14Restart", bounds="preempt=1,det=0,maxcreates=1", max_seconds=3000, no_native=True, reach=["restarted", "end"]),
+        ],
+    },
+    outside="acknowledgement and listing across several nodes (needs real raft replication); re-creation of a deleted dataset under the same id (ids are server generated); partitions assigned to the local node in the state-machine harness (their raft loading is exercised by the restart harness and by C12)",
+    assumptions=COMMON_ASSUME + ["the etcd raft node is a harness node that commits every proposal at once, re-delivers the stored entries after the snapshot on (re)start and appends the bootstrap membership entry on StartNode",
+                                 "net.Listen, grpc.NewServer and service registration are stubs; Badger is the API-level model with contents shared per Dir"],
 )
